@@ -875,6 +875,14 @@ V("c03-grid-contract-recursion-result-ignored", "C03", "R03.7", "dask_array/_exp
 V("c03-twin-grid-contract-worklist", "C03", "-", "dask_array/_expr.py",
   "        _seen = set() if _seen is None else _seen\n        for ref in dependents.get(expr._name, ()):\n            node = ref()\n            if node is None or node._name in _seen:\n                continue\n            _seen.add(node._name)\n            requires = getattr(node, \"_requires_grid_preservation\", None)\n            if requires is not None and requires(expr):\n                return True\n            if self._has_grid_sensitive_dependent(node, dependents, _seen):\n                return True\n        return False",
   "        _seen = set() if _seen is None else _seen\n        frontier = [expr]\n        while frontier:\n            below = frontier.pop()\n            for ref in dependents.get(below._name, ()):\n                node = ref()\n                if node is None or node._name in _seen:\n                    continue\n                _seen.add(node._name)\n                requires = getattr(node, \"_requires_grid_preservation\", None)\n                if requires is not None and requires(below):\n                    return True\n                frontier.append(node)\n        return False", twin=True)
+V("c20-sliding-window-fusion-ignores-grid-contract", "C20", "R20.5", "dask_array/_overlap.py",
+  "                    return self._unless_grid_observed(parent, dependents, native)\n", "                    return native\n", expect="SlidingWindowView._simplify_up")
+V("c20-sliding-window-contract-helper-never-declines", "C20", "R20.5", "dask_array/_overlap.py",
+  "        if fused.chunks != parent.chunks and self._has_grid_sensitive_dependent(parent, dependents):\n            return None\n        return fused", "        return fused", expect="SlidingWindowView._simplify_up")
+V("c20-blocks-not-grid-sensitive", "C20", "R20.6", "dask_array/slicing/_blocks.py",
+  "    def _requires_grid_preservation(self, dependency):\n        # ``index`` addresses blocks of the grid the source advertised when\n        # ``x.blocks[...]`` was written.\n        return True\n\n", "", expect="Blocks")
+V("c20-twin-sliding-window-fusion-guard-nested", "C20", "-", "dask_array/_overlap.py",
+  "        return self._unless_grid_observed(parent, dependents, fused)\n\n    def _unless_grid_observed", "        if fused.chunks != parent.chunks and self._has_grid_sensitive_dependent(parent, dependents):\n            return None\n        return fused\n\n    def _unless_grid_observed", twin=True)
 V("c02-detector-uses-forward-permutation", "C02", "R02.6", "dask_array/_blockwise.py",
   "        inv = expr._inverse_axes\n        dep_mapping = tuple(parent_mapping[inv[i]] for i in range(len(inv)))", "        dep_mapping = tuple(parent_mapping[ax] for ax in expr.axes)", expect="_symbolic_mapping")
 V("c02-twin-detector-local-rename", "C02", "-", "dask_array/_blockwise.py",
